@@ -5,7 +5,9 @@
        struct kinds, one level down, and their methods have the frame the model gives them;
      - gobDecodeItem tries the shapes in an order (Gen/GobR.gob_sniff) in which no output of the encoder
        is taken for another shape (the sniffing condition);
-     - the two hand-modelled repairs are in place (IRI by pointer, Endpoints codec).
+     - the Endpoints codec is in place; the one-call leaf codecs (codecs_ok), the statement groups of gobEncodeItem
+       (enc_item_ok, with its case for an IRI held by pointer) and what GetItemByType creates (presets_ok) are the
+       generated ones the proofs are made for.
    Definitions only. *)
 From AP.Model Require Import Prelude Vocab Bytes Layout Pred Dispatch GobTables Gob GobCheck.
 
@@ -35,6 +37,118 @@ Definition bytes_list_eqb (a b : list bytes) : bool := list_eqb bytes_eqb a b.
 
 Definition has_field (L : list fdecl) (f : fid) (t : gotype) : bool :=
   existsb (fun d => fid_beq (fd_fid d) f && gotype_eqb (fd_type d) t) L.
+
+(* ------------------------------------------------------------------ one-call leaf codecs (builder b43)
+   The generated statement lists of the leaf GobEncode / GobDecode methods and of the one-call helpers are
+   compared, positions aside, with the statement lists the round-trip proof is made for.  Under this
+   condition the interpreters of Model/Gob.v compute the closed forms (Proofs/GobCodecP.v). *)
+Definition blist_eqb (a b : list bytes) : bool := list_eqb bytes_eqb a b.
+
+Definition glw_same (a b : glw) : bool :=
+  match a, b with
+  | LwRetEmptyIfLen0 s _, LwRetEmptyIfLen0 s' _ => blist_eqb s s'
+  | LwRetRaw _, LwRetRaw _ | LwBuffer _, LwBuffer _ | LwEncoder _, LwEncoder _ => true
+  | LwMkKvs k v _, LwMkKvs k' v' _ | LwMkKv k v _, LwMkKv k' v' _ => bytes_eqb k k' && bytes_eqb v v'
+  | LwMkByteList _, LwMkByteList _ => true
+  | LwEncode via src _, LwEncode via' src' _ => bytes_eqb via via' && bytes_eqb src src'
+  | LwRetBuffer _, LwRetBuffer _ | LwHelperEncode _, LwHelperEncode _ | LwHelperRetNil _, LwHelperRetNil _ => true
+  | _, _ => false
+  end.
+
+Definition glr_same (a b : glr) : bool :=
+  match a, b with
+  | LrRetNilIfEmpty _, LrRetNilIfEmpty _ | LrStoreRaw _, LrStoreRaw _ | LrDecoder _, LrDecoder _ => true
+  | LrDeclare h t _, LrDeclare h' t' _ => bytes_eqb h h' && bytes_eqb t t'
+  | LrDecodeLocal _, LrDecodeLocal _ | LrTryDecodeRecv _, LrTryDecodeRecv _ | LrStoreLocal _, LrStoreLocal _ => true
+  | LrAppendKvs r v _, LrAppendKvs r' v' _ | LrStoreKv r v _, LrStoreKv r' v' _ => bytes_eqb r r' && bytes_eqb v v'
+  | LrAppendStrs _, LrAppendStrs _ | LrRetNil _, LrRetNil _ => true
+  | LrRetDecodeParam t _, LrRetDecodeParam t' _ => bytes_eqb t t'
+  | LrDecodeLocalErr _, LrDecodeLocalErr _ | LrRetLocalErr _, LrRetLocalErr _ => true
+  | LrMethodDecode c _, LrMethodDecode c' _ => bytes_eqb c c'
+  | _, _ => false
+  end.
+
+Fixpoint all2 {A} (f : A -> A -> bool) (a b : list A) : bool :=
+  match a, b with [] , [] => true | x :: a', y :: b' => f x y && all2 f a' b' | _, _ => false end.
+
+(* the statement lists the proofs are made for (positions empty) *)
+Definition cw_raw : list glw := [LwRetRaw []].
+Definition cw_bytes : list glw :=
+  [LwRetEmptyIfLen0 [[]] []; LwBuffer []; LwEncoder []; LwEncode n_strlike_enc n_recv []; LwRetBuffer []].
+Definition cw_nlv : list glw :=
+  [LwRetEmptyIfLen0 [[]] []; LwBuffer []; LwEncoder []; LwMkKvs n_ref n_value []; LwEncode n_encode n_local []; LwRetBuffer []].
+Definition cw_lrv : list glw :=
+  [LwRetEmptyIfLen0 [n_value; n_ref] []; LwBuffer []; LwEncoder []; LwMkKv n_ref n_value []; LwEncode n_encode n_local []; LwRetBuffer []].
+Definition cw_iris : list glw :=
+  [LwRetEmptyIfLen0 [[]] []; LwBuffer []; LwEncoder []; LwMkByteList []; LwEncode n_encode n_local []; LwRetBuffer []].
+Definition cw_scalar : list glw := [LwBuffer []; LwEncoder []; LwEncode n_encode n_recv []; LwRetBuffer []].
+Definition cw_strlike : list glw := [LwHelperEncode []; LwHelperRetNil []].
+
+Definition canon_w : list (bytes * list glw) :=
+  [ (n_iri_enc, cw_raw); (n_type_enc, cw_raw); (n_mime_enc, cw_bytes); (n_langref_enc, cw_bytes); (n_content_enc, cw_bytes);
+    (n_nlv_enc, cw_nlv); (n_lrv_enc, cw_lrv); (n_iris_enc, cw_iris);
+    (n_int64_enc, cw_scalar); (n_uint_enc, cw_scalar); (n_float_enc, cw_scalar); (n_bool_enc, cw_scalar);
+    (n_strlike_enc, cw_strlike) ].
+
+Definition how_var : bytes := B "var".
+Definition how_lit : bytes := B "lit".
+Definition how_new : bytes := B "new".
+Definition cr_raw : list glr := [LrStoreRaw []; LrRetNil []].
+Definition cr_bytes (how : bytes) : list glr :=
+  [LrRetNilIfEmpty []; LrDeclare how ty_bytes []; LrDecodeLocal []; LrStoreLocal []; LrRetNil []].
+Definition cr_nlv : list glr :=
+  [LrRetNilIfEmpty []; LrDeclare how_make0 ty_kvs []; LrDecodeLocal []; LrAppendKvs n_K n_V []; LrRetNil []].
+Definition cr_lrv : list glr :=
+  [LrRetNilIfEmpty []; LrDeclare how_lit ty_kv []; LrDecodeLocal []; LrStoreKv n_ref n_K []; LrStoreKv n_value n_V []; LrRetNil []].
+Definition cr_iris : list glr :=
+  [LrRetNilIfEmpty []; LrTryDecodeRecv []; LrDeclare how_make0 ty_bytelist []; LrDecodeLocal []; LrAppendStrs []; LrRetNil []].
+Definition cr_scalar (ty : bytes) : list glr := [LrDecoder []; LrRetDecodeParam ty []].
+Definition cr_duration : list glr := [LrDeclare how_var ty_duration []; LrDecodeLocalErr []; LrRetLocalErr []].
+Definition cr_nlv_fn : list glr := [LrDeclare how_make0 ty_nlv []; LrMethodDecode n_nlv_dec []; LrRetLocalErr []].
+Definition cr_endpoints_fn : list glr :=
+  [LrDeclare how_new (B "*Endpoints") []; LrMethodDecode (B "*Endpoints.GobDecode") []; LrRetLocalErr []].
+
+Definition canon_r : list (bytes * list glr) :=
+  [ (n_iri_dec, cr_raw); (n_type_dec, cr_raw); (n_mime_dec, cr_bytes how_var); (n_langref_dec, cr_bytes how_var);
+    (n_content_dec, cr_bytes how_make0); (n_nlv_dec, cr_nlv); (n_lrv_dec, cr_lrv); (n_iris_dec, cr_iris);
+    (n_int64_fn, cr_scalar ty_int64); (n_uint_fn, cr_scalar ty_uint); (n_float_fn, cr_scalar ty_float64);
+    (n_bool_fn, cr_scalar ty_bool); (n_dur_fn, cr_duration); (n_nlv_fn, cr_nlv_fn); (n_endpoints_fn, cr_endpoints_fn) ].
+
+Definition codec_w_ok (E : gob_env) (p : bytes * list glw) : bool := all2 glw_same (codec_w E (fst p)) (snd p).
+Definition codec_r_ok (E : gob_env) (p : bytes * list glr) : bool := all2 glr_same (codec_r E (fst p)) (snd p).
+Definition codecs_ok (E : gob_env) : bool := forallb (codec_w_ok E) canon_w && forallb (codec_r_ok E) canon_r.
+
+(* diagnostics: the codecs whose statements are not the expected ones *)
+Definition bad_codecs (E : gob_env) : list bytes :=
+  map fst (filter (fun p => negb (codec_w_ok E p)) canon_w) ++ map fst (filter (fun p => negb (codec_r_ok E p)) canon_r).
+
+(* ---- gobEncodeItem: its statement groups are the ones the proofs are made for *)
+Definition genc_same (a b : genc_stmt) : bool :=
+  match a, b with
+  | GENilEmpty _, GENilEmpty _ | GEBuffer _, GEBuffer _ | GEReturn _, GEReturn _ => true
+  | GEIriBlock v p f _, GEIriBlock v' p' f' _ => Bool.eqb v v' && Bool.eqb p p' && Bool.eqb f f'
+  | GEOn pr on c _, GEOn pr' on' c' _ => bytes_eqb pr pr' && bytes_eqb on on' && bytes_eqb c c'
+  | GESwitch pr _, GESwitch pr' _ => bytes_eqb pr pr'
+  | _, _ => false
+  end.
+
+Definition canon_enc_item : list genc_stmt :=
+  [ GENilEmpty []; GEIriBlock true true true []; GEBuffer [];
+    GEOn (B "IsIRIs") (B "OnIRIs") (B "gobEncodeIRIs") [];
+    GEOn (B "IsItemCollection") (B "OnItemCollection") (B "gobEncodeItems") [];
+    GEOn (B "IsLink") (B "OnLink") (B "Link.GobEncode") [];
+    GESwitch (B "IsObject") []; GEReturn [] ].
+
+Definition enc_item_ok (E : gob_env) : bool := all2 genc_same (ge_enc_item E) canon_enc_item.
+
+(* ---- what GetItemByType creates: every tag of its switch and its default have an entry, every statement of the
+        expression / constructor behind it is recognised *)
+Definition preset_recognised (p : gpreset) : bool := match p with GPUnrecognised _ _ => false | _ => true end.
+Definition tag_presets_ok (E : gob_env) (tag : bytes) : bool :=
+  bytes_eqb tag (B "fallthrough") ||
+  match aget tag (ge_typer_presets E) with Some ps => forallb preset_recognised ps | None => false end.
+Definition presets_ok (E : gob_env) : bool :=
+  forallb (fun c => tag_presets_ok E (snd c)) (ge_sw_typer E) && tag_presets_ok E (ge_sw_typer_default E).
 
 Section Whole.
 Variable E : gob_env.
@@ -82,6 +196,7 @@ Definition leaves_ok : bool :=
 Definition leaf_bad_fields : list (bytes * fid) :=
   flat_map (fun n => flat_map (fun d => if field_ok_gen fits0 pair_ok0 (leaf_w E n) (leaf_r E n) d then [] else [(n, fd_fid d)])
                               (leaf_layout E n)) [n_source; n_pubkey; n_endpoints].
+
 
 (* ------------------------------------------------------------------ the sniffing condition *)
 Inductive sniff_kind_t := SkItems | SkIris | SkMap (tkey : bytes) (always : bool) | SkIri | SkFail.
@@ -140,6 +255,6 @@ Definition type_fields_ok : bool := forallb (fun k => in_layout E k F_Type) all_
 (* ------------------------------------------------------------------ the whole condition *)
 Definition gob_whole_ok : bool :=
   gob_tables_consistent E && leaves_ok && sniff_ok (ge_sniff E) && type_fields_ok &&
-  ge_ptr_iri E && ge_endpoints_codec E.
+  ge_endpoints_codec E && codecs_ok E && enc_item_ok E && presets_ok E.
 
 End Whole.
